@@ -15,6 +15,7 @@
  */
 #define ZSTD_DEPS_NEED_MALLOC
 #include "compress/zstd_compress.c"
+#include "compress/zstdmt_compress.c"   /* worker context pool and serial LDM state of ZSTDMT (command mtstream) */
 #include <stdio.h>
 #include <stdlib.h>
 #include <string.h>
@@ -64,6 +65,38 @@ static BYTE *cbuf, *cbuf2, *rbuf; static size_t cbufCap, rbufCap;
 static void w_out(const char* tag, const ZSTD_window_t* w) {
     printf(" %s=%lld,%lld,%lld,%u,%u,%u", tag, AOFF(w->nextSrc), AOFF(w->base), AOFF(w->dictBase), w->dictLimit, w->lowLimit, w->nbOverflowCorrections);
 }
+/* direct observer of tables_stay_below_current: number of cells of the index tables that hold an index above
+ * the current one (a table that missed a rebasing shows here at once), and the largest cell seen.
+ * Returns the number of bad cells (match-state tables + LDM table + nextToUpdate). */
+static size_t table_observer(const ZSTD_CCtx* c, int print) {
+    const ZSTD_matchState_t* const ms = &c->blockState.matchState;
+    const ZSTD_CCtx_params* const ap = &c->appliedParams;
+    int const ldmOn = ap->ldmParams.enableLdm == ZSTD_ps_enable;
+    size_t bad = 0, lbad = 0, i; U32 mx = 0; int ntubad = 0;
+    if (!(c->initialized && ms->hashTable)) return 0;
+    {   ll const c_ = (ll)(ms->window.nextSrc - ms->window.base);
+        size_t const hSize = (size_t)1 << ap->cParams.hashLog;
+        for (i = 0; i < hSize; i++) { U32 const e = ms->hashTable[i]; if ((ll)e > c_) bad++; if (e > mx) mx = e; }
+        if (ZSTD_allocateChainTable(ap->cParams.strategy, ap->useRowMatchFinder, (U32)ms->dedicatedDictSearch) && ms->chainTable) {
+            size_t const cSize = (size_t)1 << ap->cParams.chainLog;
+            for (i = 0; i < cSize; i++) { U32 const e = ms->chainTable[i]; if ((ll)e > c_) bad++; if (e > mx) mx = e; }
+        }
+        if (ms->hashLog3 && ms->hashTable3) {
+            size_t const h3 = (size_t)1 << ms->hashLog3;
+            for (i = 0; i < h3; i++) { U32 const e = ms->hashTable3[i]; if ((ll)e > c_) bad++; if (e > mx) mx = e; }
+        }
+        ntubad = (ll)ms->nextToUpdate > c_;
+        if (print) printf(" tbad=%zu tmax=%u ntubad=%d", bad, mx, ntubad);
+        if (ldmOn && c->ldmState.hashTable) {
+            ll const lc = (ll)(c->ldmState.window.nextSrc - c->ldmState.window.base);
+            size_t const n = (size_t)1 << ap->ldmParams.hashLog;
+            for (i = 0; i < n; i++) if ((ll)c->ldmState.hashTable[i].offset > lc) lbad++;
+            if (print) printf(" ltbad=%zu", lbad);
+        }
+    }
+    return bad + lbad + (size_t)ntubad;
+}
+
 static void state_out(const ZSTD_CCtx* c) {
     const ZSTD_matchState_t* const ms = &c->blockState.matchState;
     const ZSTD_CCtx_params* const ap = &c->appliedParams;
@@ -80,6 +113,7 @@ static void state_out(const ZSTD_CCtx* c) {
     {   ll const c_ = (ll)(ms->window.nextSrc - ms->window.base);
         printf(" idx=%lld", c_);
     }
+    table_observer(c, 1);
 }
 
 static void apply_params(ZSTD_CCtx* c) {
@@ -103,7 +137,29 @@ static int decode_ok(const void* cs, size_t csize, const BYTE* src, size_t size)
     else if (dictMode == 2) ZSTD_DCtx_loadDictionary_advanced(dctx, arena + dictOff, dictSize, ZSTD_dlm_byRef, ZSTD_dct_rawContent);
     r = ZSTD_decompressDCtx(dctx, rbuf, size ? size : 1, cs, csize);
     if (ZSTD_isError(r)) { printf(" derr=%s", ZSTD_getErrorName(r)); return 0; }
-    return r == size && (size == 0 || memcmp(rbuf, src, size) == 0);
+    if (!(r == size && (size == 0 || memcmp(rbuf, src, size) == 0))) return 0;
+    /* second decoding, streaming with small output pieces: the decoder then keeps only the window the frame header
+     * declares (ring buffer), so a match reaching further back than the compressor's window allows is caught here */
+    {   ZSTD_inBuffer ib; size_t pos = 0; static BYTE piece[4096]; size_t guard = 0;
+        ZSTD_DCtx_reset(dctx, ZSTD_reset_session_and_parameters);
+        ZSTD_DCtx_setParameter(dctx, ZSTD_d_windowLogMax, ZSTD_WINDOWLOG_MAX);
+        if (dictMode == 1) ZSTD_DCtx_refPrefix(dctx, arena + dictOff, dictSize);
+        else if (dictMode == 2) ZSTD_DCtx_loadDictionary_advanced(dctx, arena + dictOff, dictSize, ZSTD_dlm_byRef, ZSTD_dct_rawContent);
+        ib.src = cs; ib.size = csize; ib.pos = 0;
+        for (;;) {
+            ZSTD_outBuffer ob; size_t dr;
+            ob.dst = piece; ob.size = sizeof(piece); ob.pos = 0;
+            dr = ZSTD_decompressStream(dctx, &ob, &ib);
+            if (ZSTD_isError(dr)) { printf(" dserr=%s@%zu", ZSTD_getErrorName(dr), pos); return 0; }
+            if (pos + ob.pos > size || memcmp(piece, src + pos, ob.pos) != 0) { printf(" dsdiff@%zu", pos); return 0; }
+            pos += ob.pos;
+            if (dr == 0) break;
+            if (ob.pos == 0 && ib.pos == ib.size) { printf(" dstrunc@%zu", pos); return 0; }
+            if (++guard > (1u << 24)) return 0;
+        }
+        if (pos != size) { printf(" dsshort@%zu", pos); return 0; }
+    }
+    return 1;
 }
 static void need_cbuf(size_t size) {
     size_t const need = ZSTD_compressBound(size) + 1024;
@@ -129,7 +185,13 @@ static void frame_oneshot(size_t off, size_t size) {
     c2 = ZSTD_compress2(fresh, cbuf2, cbufCap, arena + off, size);
     printf("F api=oneshot off=%zu size=%zu", off, size);
     if (ZSTD_isError(c1) || ZSTD_isError(c2)) printf(" cerr=%s/%s rt=0 fresh=0", ZSTD_getErrorName(c1), ZSTD_getErrorName(c2));
-    else printf(" csize=%zu rt=%d fresh=%d", c1, decode_ok(cbuf, c1, arena + off, size), c1 == c2 && memcmp(cbuf, cbuf2, c1) == 0);
+    else {
+        printf(" csize=%zu rt=%d fresh=%d", c1, decode_ok(cbuf, c1, arena + off, size), c1 == c2 && memcmp(cbuf, cbuf2, c1) == 0);
+        if (!(c1 == c2 && memcmp(cbuf, cbuf2, c1) == 0)) {   /* where the two outputs part */
+            size_t k = 0; while (k < c1 && k < c2 && cbuf[k] == cbuf2[k]) k++;
+            printf(" fsize=%zu fdiff=%zu", c2, k);
+        }
+    }
     printf(" forced=%d lit=%lld dict=%d,%zu,%zu", fr, AOFF(litAddr), dictMode, dictOff, dictSize);
     state_out(cctx);
     printf("\n");
@@ -213,7 +275,7 @@ static void frame_stream(size_t off, size_t size, size_t cin, size_t cout, int f
     printf("F api=stream off=%zu size=%zu", off, size);
     if (ZSTD_isError(c1) || ZSTD_isError(c2)) printf(" cerr=%s/%s rt=0 fresh=0", ZSTD_getErrorName(c1), ZSTD_getErrorName(c2));
     else printf(" csize=%zu rt=%d fresh=%d", c1, decode_ok(cbuf, c1, arena + off, size), c1 == c2 && memcmp(cbuf, cbuf2, c1) == 0);
-    printf(" forced=%d", fr);
+    printf(" forced=%d dict=%d,%zu,%zu", fr, dictMode, dictOff, dictSize);
     state_out(cctx);
     printf("\n");
     ZSTD_freeCCtx(fresh);
@@ -276,11 +338,101 @@ static void bigstream(U64 total, U64 seed) {
     free(in); free(exp); free(out); free(dec);
 }
 
+/* ---------------- long stream through a (possibly multi-threaded) context + the same through a fresh one -------------
+ * The compressed stream is hashed (XXH64) so that two runs can be compared without keeping them; when d != NULL it
+ * is decoded on the fly and compared with the regenerated input. */
+static int long_stream(ZSTD_CCtx* c, ZSTD_DCtx* d, U64 total, U64 seed, U64* producedOut, U64* hashOut) {
+    BYTE* const in = (BYTE*)malloc(BCH); BYTE* const exp = (BYTE*)malloc(BCH);
+    size_t const ocap = ZSTD_compressBound(BCH) + 4096; BYTE* const out = (BYTE*)malloc(ocap);
+    BYTE* const dec = (BYTE*)malloc(BCH);
+    U64 fed = 0, produced = 0, decoded = 0, nchunks = (total + BCH - 1) / BCH, i; int ok = 1;
+    U64 expChunk = (U64)-1; size_t r = 0;
+    XXH64_state_t xs; XXH64_reset(&xs, 0);
+    if (d) { ZSTD_DCtx_reset(d, ZSTD_reset_session_and_parameters); ZSTD_DCtx_setParameter(d, ZSTD_d_windowLogMax, ZSTD_WINDOWLOG_MAX); }
+    for (i = 0; i < nchunks && ok; i++) {
+        size_t const n = (size_t)((total - fed < BCH) ? total - fed : BCH);
+        ZSTD_inBuffer ib; ZSTD_EndDirective const dir = (i == nchunks - 1) ? ZSTD_e_end : ZSTD_e_continue;
+        gen_chunk(in, i, seed);
+        ib.src = in; ib.size = n; ib.pos = 0;
+        do {
+            ZSTD_outBuffer ob; ZSTD_inBuffer db;
+            ob.dst = out; ob.size = ocap; ob.pos = 0;
+            r = ZSTD_compressStream2(c, &ob, &ib, dir);
+            if (ZSTD_isError(r)) { printf("E long_stream compress %s\n", ZSTD_getErrorName(r)); ok = 0; break; }
+            produced += ob.pos;
+            XXH64_update(&xs, out, ob.pos);
+            db.src = out; db.size = ob.pos; db.pos = 0;
+            while (d && db.pos < db.size && ok) {
+                ZSTD_outBuffer dob; size_t dr, k = 0;
+                dob.dst = dec; dob.size = BCH; dob.pos = 0;
+                dr = ZSTD_decompressStream(d, &dob, &db);
+                if (ZSTD_isError(dr)) { printf("E long_stream decompress %s at %llu\n", ZSTD_getErrorName(dr), (unsigned long long)decoded); ok = 0; break; }
+                while (k < dob.pos) {
+                    U64 const ci = decoded / BCH; size_t const co = (size_t)(decoded % BCH);
+                    size_t const m = (dob.pos - k < BCH - co) ? dob.pos - k : BCH - co;
+                    if (ci != expChunk) { gen_chunk(exp, ci, seed); expChunk = ci; }
+                    if (memcmp(dec + k, exp + co, m) != 0) { printf("E long_stream content differs near %llu\n", (unsigned long long)decoded); ok = 0; break; }
+                    k += m; decoded += m;
+                }
+            }
+        } while (ok && (ib.pos < ib.size || (dir == ZSTD_e_end && r != 0)));
+        fed += n;
+    }
+    if (d && decoded != total) ok = 0;
+    *producedOut = produced; *hashOut = XXH64_digest(&xs);
+    free(in); free(exp); free(out); free(dec);
+    return ok;
+}
+
+/* mtstream total seed warpTo : the parameters in force must select nbWorkers >= 1.
+ * warpTo > 0: before the frame every idle worker context of the pool is moved to index warpTo (same device as
+ * "warpto", applied to the contexts ZSTDMT reuses from job to job).  After the frame the worker contexts are
+ * inspected: corrections made, largest index, table observer. */
+static void mtstream(U64 total, U64 seed, ll warpTo) {
+    U64 p1 = 0, p2 = 0, h1 = 0, h2 = 0; int ok, nw = 0, k; U32 wnb = 0; ll wmax = 0; size_t wbad = 0; int warped = 0;
+    ZSTD_CCtx* fresh;
+    apply_params(cctx);
+    if (warpTo > 0 && cctx->mtctx && cctx->mtctx->cctxPool) {
+        ZSTDMT_CCtxPool* const pool = cctx->mtctx->cctxPool;
+        for (k = 0; k < pool->availCCtx; k++) {
+            ZSTD_CCtx* const wc = pool->cctxs[k];
+            if (wc && wc->initialized) {
+                ZSTD_window_t* const w = &wc->blockState.matchState.window;
+                ll const dlt = warpTo - (ll)(w->nextSrc - w->base);
+                if (dlt > 0) { w->base -= dlt; w->dictBase -= dlt; warped++; }
+            }
+        }
+    }
+    ok = long_stream(cctx, dctx, total, seed, &p1, &h1);
+    fresh = ZSTD_createCCtx_advanced(cmem);
+    apply_params(fresh);
+    (void)long_stream(fresh, NULL, total, seed, &p2, &h2);
+    ZSTD_freeCCtx(fresh);
+    if (cctx->mtctx && cctx->mtctx->cctxPool) {
+        ZSTDMT_CCtxPool* const pool = cctx->mtctx->cctxPool;
+        for (k = 0; k < pool->availCCtx; k++) {
+            const ZSTD_CCtx* const wc = pool->cctxs[k];
+            if (wc && wc->initialized) {
+                const ZSTD_window_t* const w = &wc->blockState.matchState.window;
+                ll const c_ = (ll)(w->nextSrc - w->base);
+                nw++;
+                if (w->nbOverflowCorrections > wnb) wnb = w->nbOverflowCorrections;
+                if (c_ > wmax) wmax = c_;
+                wbad += table_observer(wc, 0);
+            }
+        }
+    }
+    printf("G api=mtstream size=%llu csize=%llu rt=%d fresh=%d nbovf=%u maxidx=%lld workers=%d warped=%d wtbad=%zu",
+           (unsigned long long)total, (unsigned long long)p1, ok, p1 == p2 && h1 == h2, wnb, wmax, nw, warped, wbad);
+    if (cctx->mtctx) printf(" serialnbovf=%u", cctx->mtctx->serial.ldmState.window.nbOverflowCorrections);
+    printf("\n");
+}
+
 /* ---------------- finding F7 probe: LDM on, one frame, `ncalls` flushes of 6 bytes, then `tail` chunks of 64 KiB --------
  * pure public API (ZSTD_compressStream2 + ZSTD_e_flush); decoded on the fly; content verified by the frame
  * checksum (tiny phase) and byte compare (tail).  Blocks below 7 bytes never reach ZSTD_ldm_generateSequences,
  * the only place where the LDM window is overflow-corrected, while ZSTD_window_update advances it. */
-static void ldmtiny(U64 ncalls, U64 tail) {
+static void ldmtiny(U64 ncalls, U64 tail, ll warpIdx) {
     static BYTE in[8]; BYTE* const out = (BYTE*)malloc(1 << 18); BYTE* const dec = (BYTE*)malloc(1 << 18);
     BYTE* const big = (BYTE*)malloc(BCH);
     U64 i, decoded = 0; int ok = 1; size_t r = 0;
@@ -294,6 +446,13 @@ static void ldmtiny(U64 ncalls, U64 tail) {
         if (!isTail) { in[0] = (BYTE)i; in[1] = (BYTE)(i >> 8); in[2] = 'c'; in[3] = 'd'; in[4] = 'e'; in[5] = 'f'; ib.src = in; ib.size = 6; }
         else { gen_chunk(big, i, 77); ib.src = big; ib.size = BCH; }
         ib.pos = 0;
+        if (warpIdx > 0 && i == ncalls / 2) {
+            /* test device of the quick tier: the LDM window as it is after (warpIdx - current index) more bytes of tiny
+             * blocks (only ZSTD_window_update ever touches it on that path, and it only moves nextSrc) */
+            ZSTD_window_t* const w = &cctx->ldmState.window;
+            ll const dlt = warpIdx - (ll)(w->nextSrc - w->base);
+            if (dlt > 0) { w->base -= dlt; w->dictBase -= dlt; }
+        }
         if (i == ncalls) {
             printf("T api=ldmtiny phase=tiny-done calls=%llu ldmidx=%lld ldmexact=%d", (unsigned long long)ncalls, (ll)(lw->nextSrc - lw->base),
                    (ll)(lw->nextSrc - lw->base) >= 0 && (ll)(lw->nextSrc - lw->base) < 4294967296LL);
@@ -371,7 +530,8 @@ int main(int argc, char** argv) {
         else if (!strcmp(cmd, "oneshot")) frame_oneshot((size_t)a[0], (size_t)a[1]);
         else if (!strcmp(cmd, "stream")) frame_stream((size_t)a[0], (size_t)a[1], (size_t)a[2], (size_t)a[3], (int)a[4]);
         else if (!strcmp(cmd, "bigstream")) bigstream((U64)a[0], (U64)a[1]);
-        else if (!strcmp(cmd, "ldmtiny")) ldmtiny((U64)a[0], (U64)a[1]);
+        else if (!strcmp(cmd, "ldmtiny")) ldmtiny((U64)a[0], (U64)a[1], n > 2 ? a[2] : 0);
+        else if (!strcmp(cmd, "mtstream")) mtstream((U64)a[0], (U64)a[1], n > 2 ? a[2] : 0);
         else if (!strcmp(cmd, "bufferless")) {
             /* wlog clog hlog slog mml tlen strat checksum nch (off size)* */
             ZSTD_compressionParameters cp;
